@@ -381,6 +381,7 @@ class Unit:
 
         f = self.src(rel).find_fn(ctxl, name, nth=int(opts.get('nth', 1)))
         orig = f['full']
+        lost = []
         sig = rsx.strip_comments(f['sig'])
         body = rsx.strip_comments(f['body'])
         sig = '\n'.join(l for l in sig.split('\n') if not ATTR_RE.match(l))
@@ -398,7 +399,11 @@ class Unit:
             body, n = re.subn(a, b, body)
             n_tot += n
             if n_tot == 0:
-                raise LostAnchor('fn %s: //@sub /%s/ matched nothing (anchor lost)' % (name, a))
+                # soft anchor: the body changed under this rewrite.  Keep going without it; the
+                # function is then marked `lost_hints` and a failed obligation in it is only a
+                # violation if a concrete failing input is found (DESIGN.md section 3).
+                lost.append('sub /%s/' % a)
+                continue
             self.subs_applied.append(dict(fn=name, regex=a, repl=b, n=n_tot))
         head, ret, where = rsx.split_sig_ret(sig)
         emit_name = opts.get('rename', name)
@@ -407,7 +412,12 @@ class Unit:
         if 'vis' in opts and opts['vis'] == 'drop':
             head = re.sub(r'^\s*pub(\([a-z]+\))?\s+', '', head)
         rname = opts.get('ret', 'r')
-        fnid = '%s::%s' % (os.path.basename(rel).replace('.rs', ''), emit_name)
+        ctxid = ''
+        if ctxl:
+            words = re.findall(r'[A-Z][A-Za-z0-9]+|copy_slice_impl', re.sub(r'\\.', '', ctxl[-1]))
+            words = [w for w in words if w not in ('B', 'T', 'BitmapSlice', 'ByteValued', 'Bitmap', 'F', 'NewBitmap')]
+            ctxid = '.'.join(dict.fromkeys(words)) + '::' if words else ''
+        fnid = '%s::%s%s' % (os.path.basename(rel).replace('.rs', ''), ctxid, emit_name)
         if 'id' in opts:
             fnid = opts['id']
         sigline = head.strip()
@@ -430,13 +440,22 @@ class Unit:
         # loops: insert from last to first so offsets stay valid
         inserts = []
         for k, (tg, lines) in loops.items():
-            _, b0 = rsx.nth_loop(body, k)
+            try:
+                _, b0 = rsx.nth_loop(body, k)
+            except LostAnchor:
+                lost.append('loop %d' % k)
+                continue
             inserts.append((b0, tg, lines, 'loopinv'))
         for k, pat, lines in befores:
             m = rsx.mask(body)
             ms = [mm for mm in rsx.find_code(body, m, pat)]
+            if k == 0:
+                pos = body.index('{') + 1
+                inserts.append((pos, deftags, [''] + lines, 'proof'))
+                continue
             if len(ms) < k:
-                raise LostAnchor('fn %s: //@before %d /%s/ not found (anchor lost)' % (name, k, pat))
+                lost.append('before %d /%s/' % (k, pat))
+                continue
             pos = body.rfind('\n', 0, ms[k - 1].start()) + 1
             inserts.append((pos, deftags, lines, 'proof'))
         inserts.sort(key=lambda x: -x[0])
@@ -473,7 +492,9 @@ class Unit:
         end_line = len(self.out)
         rec = dict(name=fnid, src_name=name, file=rel, src_line=f['line'], sha=rsx.sha(orig),
                    gen_lines=[start_line, end_line], tags=deftags, kind='fn',
-                   nspec=sum(len(l) for _, l in spec), nloops=len(loops))
+                   nspec=sum(len(l) for _, l in spec), nloops=len(loops),
+                   div0tags=opts.get('div0tags', '').split(',') if opts.get('div0tags') else None,
+                   lost_hints=lost)
         self.functions.append(rec)
         for lab, a, b in canaries:
             self.canaries.append(dict(label=lab, fn=fnid, regex=a, repl=b, lines=[start_line, end_line]))
